@@ -125,6 +125,18 @@ def stream_box(tier, seed, props):
     return res
 
 
+def spec_validation(r, prop, tier, which):
+    """DESIGN.md 6.5: the oracles themselves against an exhaustive search over executable action
+    sequences (small n)."""
+    from . import optimum_search
+    a, b = (8, 5) if tier == "thorough" else (6, 4)
+    ev, viol = optimum_search.validate(a if "steps" in which else 0, b if "cost" in which else 0)
+    r["evaluations"] += ev
+    r["clauses"].append("spec_function_is_the_true_optimum(n<=%d steps / n<=%d costs, Dijkstra over executor states)" % (a, b))
+    for what, inp, d in viol:
+        r["violations"].append(_viol(prop, what, inp, d))
+
+
 # ------------------------------------------------------------------ C05
 def c05(tier, seed):
     from contracts import specs
@@ -201,6 +213,7 @@ def c05(tier, seed):
         if len(r["samples"]) < 3 and n > 8:
             r["samples"].append({"spec": list(spec), "fwd_steps": stats["fwd_steps"], "optimum": want})
     r["exhaustive"] = True
+    spec_validation(r, "C05", tier, ("steps",))
     return r
 
 
@@ -258,6 +271,7 @@ def c06(tier, seed):
                 r["violations"].append(_viol("C06", "optimal_steps_mixed_equals_spec",
                                              ("optimal_steps_mixed", n, s),
                                              "got=%d spec=%d" % (got, specs.mixed_opt(n, s))))
+    spec_validation(r, "C06", tier, ("steps",))
     return r
 
 
@@ -410,6 +424,7 @@ def c07(tier, seed):
         for clause, spec, d in viol:
             r["violations"].append(_viol("C07", clause, spec, d))
     sequence_algebra_contracts(r)
+    spec_validation(r, "C07", tier, ("cost",))
     return r
 
 
